@@ -795,6 +795,402 @@ func statelessness(b *strings.Builder, fset *token.FileSet, dir string) {
 	fmt.Fprintf(b, "def wrappers : List (String × String) := [%s]\n", strings.Join(ws, ", "))
 }
 
+
+// ---------------------------------------------------------------- the rune loops of DateFormat.format / Parse
+
+func stripParenConv(e ast.Expr) ast.Expr {
+	for {
+		switch x := e.(type) {
+		case *ast.ParenExpr:
+			e = x.X
+			continue
+		case *ast.CallExpr:
+			if id, ok := x.Fun.(*ast.Ident); ok && len(x.Args) == 1 && (id.Name == "int" || id.Name == "int64" || id.Name == "int32") {
+				e = x.Args[0]
+				continue
+			}
+		}
+		return e
+	}
+}
+
+func isIdent(e ast.Expr, name string) bool {
+	id, ok := e.(*ast.Ident)
+	return ok && name != "" && id.Name == name
+}
+
+// methodCall: e is `<recv>.<name>(args…)` with recv an identifier; returns recv name, method name, args
+func methodCall(e ast.Expr) (string, string, []ast.Expr, bool) {
+	c, ok := e.(*ast.CallExpr)
+	if !ok {
+		return "", "", nil, false
+	}
+	sel, ok := c.Fun.(*ast.SelectorExpr)
+	if !ok {
+		return "", "", nil, false
+	}
+	id, ok := sel.X.(*ast.Ident)
+	if !ok {
+		return "", "", nil, false
+	}
+	return id.Name, sel.Sel.Name, c.Args, true
+}
+
+// timeSel: the accessor of the time value `tv` that e reads, as a Cal.TimeSel term
+func timeSel(e ast.Expr, tv string) string {
+	e = stripParenConv(e)
+	if r, m, args, ok := methodCall(e); ok && r == tv && len(args) == 0 {
+		switch m {
+		case "Year":
+			return ".year"
+		case "Month":
+			return ".month"
+		case "Day":
+			return ".day"
+		case "Hour":
+			return ".hour"
+		case "Minute":
+			return ".minute"
+		case "Second":
+			return ".second"
+		}
+		return ".other"
+	}
+	if be, ok := e.(*ast.BinaryExpr); ok && be.Op == token.REM {
+		m, okm := evalConst(be.Y, 0)
+		if q, ok := stripParenConv(be.X).(*ast.BinaryExpr); ok && okm && q.Op == token.QUO {
+			d, okd := evalConst(q.Y, 0)
+			if r, mn, args, ok := methodCall(stripParenConv(q.X)); ok && okd && r == tv && mn == "UnixNano" && len(args) == 0 && d > 0 && m > 0 {
+				return fmt.Sprintf("(.nanoDivMod %d %d)", d, m)
+			}
+		}
+	}
+	return ".other"
+}
+
+// isRecvField: e is `<recv>.<field>`
+func isRecvField(e ast.Expr, recv, field string) bool {
+	sel, ok := e.(*ast.SelectorExpr)
+	return ok && isIdent(sel.X, recv) && sel.Sel.Name == field
+}
+
+func recvName(fn *ast.FuncDecl) string {
+	if fn.Recv != nil && len(fn.Recv.List) == 1 && len(fn.Recv.List[0].Names) == 1 {
+		return fn.Recv.List[0].Names[0].Name
+	}
+	return ""
+}
+
+func paramName(fn *ast.FuncDecl, i int) string {
+	k := 0
+	for _, f := range fn.Type.Params.List {
+		for _, n := range f.Names {
+			if k == i {
+				return n.Name
+			}
+			k++
+		}
+	}
+	return ""
+}
+
+// switchCases: the clauses of `switch <tag> { … }` as "(letter, act)" terms and the default act
+func switchCases(sw *ast.SwitchStmt, tag string, act func(body []ast.Stmt) string) (string, bool) {
+	if sw.Init != nil || !isIdent(sw.Tag, tag) {
+		return "", false
+	}
+	var cases []string
+	dflt := ".nop"
+	for _, st := range sw.Body.List {
+		cc, ok := st.(*ast.CaseClause)
+		if !ok {
+			return "", false
+		}
+		a := act(cc.Body)
+		if cc.List == nil {
+			dflt = a
+			continue
+		}
+		for _, e := range cc.List {
+			v, ok := evalConst(e, 0)
+			if !ok || v < 0 {
+				return "", false
+			}
+			cases = append(cases, fmt.Sprintf("(%d, %s)", v, a))
+		}
+	}
+	return fmt.Sprintf("(.switchCh [%s] %s)", strings.Join(cases, ", "), dflt), true
+}
+
+// formatLoop: frame of DateFormat.format (kinds of its top-level statements), what the loop ranges over, and its body
+func formatLoop(fn *ast.FuncDecl) (frame []string, over string, body string) {
+	over, body = "?", "[.other]"
+	if fn == nil || fn.Body == nil {
+		return
+	}
+	recv, tv := recvName(fn), paramName(fn, 0)
+	alias, buf := "", ""
+	for _, st := range fn.Body.List {
+		switch x := st.(type) {
+		case *ast.AssignStmt:
+			if x.Tok == token.DEFINE && len(x.Lhs) == 1 && len(x.Rhs) == 1 && isRecvField(x.Rhs[0], recv, "formatStr") {
+				alias = x.Lhs[0].(*ast.Ident).Name
+				frame = append(frame, "alias")
+				continue
+			}
+		case *ast.DeclStmt:
+			if gd, ok := x.Decl.(*ast.GenDecl); ok && gd.Tok == token.VAR && len(gd.Specs) == 1 {
+				if vs, ok := gd.Specs[0].(*ast.ValueSpec); ok && len(vs.Names) == 1 && len(vs.Values) == 0 {
+					if sel, ok := vs.Type.(*ast.SelectorExpr); ok && isIdent(sel.X, "bytes") && sel.Sel.Name == "Buffer" {
+						buf = vs.Names[0].Name
+						frame = append(frame, "buffer")
+						continue
+					}
+				}
+			}
+		case *ast.RangeStmt:
+			frame = append(frame, "loop")
+			if isIdent(x.X, alias) || isRecvField(x.X, recv, "formatStr") {
+				over = "recv.formatStr"
+			}
+			ch := ""
+			if id, ok := x.Value.(*ast.Ident); ok {
+				ch = id.Name
+			}
+			if x.Key != nil && !isIdent(x.Key, "_") {
+				ch = "" // format has no use for the index
+			}
+			var stmts []string
+			for _, bs := range x.Body.List {
+				term := ".other"
+				if sw, ok := bs.(*ast.SwitchStmt); ok && ch != "" {
+					if t, ok := switchCases(sw, ch, func(cb []ast.Stmt) string {
+						if len(cb) != 1 {
+							return ".other"
+						}
+						es, ok := cb[0].(*ast.ExprStmt)
+						if !ok {
+							return ".other"
+						}
+						r, m, args, ok := methodCall(es.X)
+						if !ok || r != buf || len(args) != 1 {
+							return ".other"
+						}
+						switch m {
+						case "WriteRune":
+							if isIdent(args[0], ch) {
+								return ".writeRune"
+							}
+						case "WriteString":
+							if c, ok := args[0].(*ast.CallExpr); ok && isIdent(c.Fun, "LPadInt") && len(c.Args) == 2 {
+								if w, ok := evalConst(c.Args[1], 0); ok && w >= 0 {
+									return fmt.Sprintf("(.writePad %s %d)", timeSel(c.Args[0], tv), w)
+								}
+							}
+						}
+						return ".other"
+					}); ok {
+						term = t
+					}
+				}
+				stmts = append(stmts, term)
+			}
+			body = "[" + strings.Join(stmts, ", ") + "]"
+			continue
+		case *ast.ReturnStmt:
+			if len(x.Results) == 1 {
+				if r, m, args, ok := methodCall(x.Results[0]); ok && r == buf && m == "String" && len(args) == 0 {
+					frame = append(frame, "return-buffer")
+					continue
+				}
+			}
+		}
+		frame = append(frame, "other")
+	}
+	return
+}
+
+// parseLoop: frame of DateFormat.Parse, its loop body, and the fill statements
+func parseLoop(fn *ast.FuncDecl) (frame []string, over string, body string, fills string) {
+	over, body, fills = "?", "[.other]", "[]"
+	if fn == nil || fn.Body == nil {
+		return
+	}
+	recv, text := recvName(fn), paramName(fn, 0)
+	reader, sz, now, dvar, tm := "", "", "", "", ""
+	var fl []string
+	for _, st := range fn.Body.List {
+		switch x := st.(type) {
+		case *ast.AssignStmt:
+			if x.Tok == token.DEFINE && len(x.Lhs) == 1 && len(x.Rhs) == 1 {
+				name := x.Lhs[0].(*ast.Ident).Name
+				rhs := x.Rhs[0]
+				// r := bytes.NewReader([]byte(dateStr))
+				if r, m, args, ok := methodCall(rhs); ok && r == "bytes" && m == "NewReader" && len(args) == 1 {
+					if c, ok := args[0].(*ast.CallExpr); ok && len(c.Args) == 1 && isIdent(c.Args[0], text) {
+						if at, ok := c.Fun.(*ast.ArrayType); ok && at.Len == nil && isIdent(at.Elt, "byte") {
+							reader = name
+							frame = append(frame, "reader")
+							continue
+						}
+					}
+				}
+				// sz := len(dateStr)
+				if c, ok := rhs.(*ast.CallExpr); ok && isIdent(c.Fun, "len") && len(c.Args) == 1 && isIdent(c.Args[0], text) {
+					sz = name
+					frame = append(frame, "sz")
+					continue
+				}
+				// now := time.Now()
+				if r, m, args, ok := methodCall(rhs); ok && r == "time" && m == "Now" && len(args) == 0 {
+					now = name
+					frame = append(frame, "now")
+					continue
+				}
+				// d := time.Date(…)   (arguments: gen_date_args)
+				if r, m, args, ok := methodCall(rhs); ok && r == "time" && m == "Date" && len(args) == 8 {
+					dvar = name
+					frame = append(frame, "date")
+					continue
+				}
+				// tm := d.UnixNano() / K   (K: gen_date_args)
+				if be, ok := rhs.(*ast.BinaryExpr); ok && be.Op == token.QUO {
+					if r, m, args, ok := methodCall(be.X); ok && r == dvar && dvar != "" && m == "UnixNano" && len(args) == 0 {
+						tm = name
+						frame = append(frame, "millis")
+						continue
+					}
+				}
+			}
+		case *ast.RangeStmt:
+			frame = append(frame, "loop")
+			if isRecvField(x.X, recv, "formatStr") {
+				over = "recv.formatStr"
+			}
+			idx, ch := "", ""
+			if id, ok := x.Key.(*ast.Ident); ok {
+				idx = id.Name
+			}
+			if id, ok := x.Value.(*ast.Ident); ok {
+				ch = id.Name
+			}
+			var stmts []string
+			for _, bs := range x.Body.List {
+				term := ".other"
+				switch y := bs.(type) {
+				case *ast.IfStmt:
+					// if i >= sz { break }
+					if be, ok := y.Cond.(*ast.BinaryExpr); ok && y.Init == nil && y.Else == nil && be.Op == token.GEQ &&
+						isIdent(be.X, idx) && isIdent(be.Y, sz) && len(y.Body.List) == 1 {
+						if br, ok := y.Body.List[0].(*ast.BranchStmt); ok && br.Tok == token.BREAK && br.Label == nil {
+							term = ".breakIfIdxGeSz"
+						}
+					}
+				case *ast.SwitchStmt:
+					if ch == "" {
+						break
+					}
+					if t, ok := switchCases(y, ch, func(cb []ast.Stmt) string {
+						if len(cb) != 1 {
+							return ".other"
+						}
+						// r.ReadRune()
+						if es, ok := cb[0].(*ast.ExprStmt); ok {
+							if r, m, args, ok := methodCall(es.X); ok && r == reader && m == "ReadRune" && len(args) == 0 {
+								return ".readRune"
+							}
+							return ".other"
+						}
+						// if v, err := this.ToInt(r, W); err == nil { this.date[ch] = v } else { return 0, <error> }
+						is, ok := cb[0].(*ast.IfStmt)
+						if !ok || is.Init == nil || is.Else == nil {
+							return ".other"
+						}
+						as, ok := is.Init.(*ast.AssignStmt)
+						if !ok || as.Tok != token.DEFINE || len(as.Lhs) != 2 || len(as.Rhs) != 1 {
+							return ".other"
+						}
+						v, okv := as.Lhs[0].(*ast.Ident)
+						er, oke := as.Lhs[1].(*ast.Ident)
+						r, m, args, okc := methodCall(as.Rhs[0])
+						if !okv || !oke || !okc || r != recv || m != "ToInt" || len(args) != 2 || !isIdent(args[0], reader) {
+							return ".other"
+						}
+						w, okw := evalConst(args[1], 0)
+						if !okw || w < 0 {
+							return ".other"
+						}
+						cond, ok := is.Cond.(*ast.BinaryExpr)
+						if !ok || cond.Op != token.EQL || !isIdent(cond.X, er.Name) || !isIdent(cond.Y, "nil") {
+							return ".other"
+						}
+						if len(is.Body.List) != 1 {
+							return ".other"
+						}
+						st, ok := is.Body.List[0].(*ast.AssignStmt)
+						if !ok || st.Tok != token.ASSIGN || len(st.Lhs) != 1 || len(st.Rhs) != 1 || !isIdent(st.Rhs[0], v.Name) {
+							return ".other"
+						}
+						ix, ok := st.Lhs[0].(*ast.IndexExpr)
+						if !ok || !isRecvField(ix.X, recv, "date") || !isIdent(ix.Index, ch) {
+							return ".other"
+						}
+						eb, ok := is.Else.(*ast.BlockStmt)
+						if !ok || len(eb.List) != 1 {
+							return ".other"
+						}
+						ret, ok := eb.List[0].(*ast.ReturnStmt)
+						if !ok || len(ret.Results) != 2 || isIdent(ret.Results[1], "nil") {
+							return ".other"
+						}
+						return fmt.Sprintf("(.toIntStore %d)", w)
+					}); ok {
+						term = t
+					}
+				}
+				stmts = append(stmts, term)
+			}
+			body = "[" + strings.Join(stmts, ", ") + "]"
+			continue
+		case *ast.IfStmt:
+			// if _, ok := this.date[K]; !ok { this.date[K] = now.X() }
+			term := ""
+			if as, ok := x.Init.(*ast.AssignStmt); ok && x.Else == nil && as.Tok == token.DEFINE && len(as.Lhs) == 2 && len(as.Rhs) == 1 &&
+				isIdent(as.Lhs[0], "_") && len(x.Body.List) == 1 {
+				okv, _ := as.Lhs[1].(*ast.Ident)
+				ix, ok1 := as.Rhs[0].(*ast.IndexExpr)
+				ne, ok2 := x.Cond.(*ast.UnaryExpr)
+				st, ok3 := x.Body.List[0].(*ast.AssignStmt)
+				if okv != nil && ok1 && ok2 && ok3 && ne.Op == token.NOT && isIdent(ne.X, okv.Name) && isRecvField(ix.X, recv, "date") &&
+					st.Tok == token.ASSIGN && len(st.Lhs) == 1 && len(st.Rhs) == 1 {
+					k1, okk1 := evalConst(ix.Index, 0)
+					if ix2, ok := st.Lhs[0].(*ast.IndexExpr); ok && okk1 && k1 >= 0 && isRecvField(ix2.X, recv, "date") {
+						k2, okk2 := evalConst(ix2.Index, 0)
+						sel := ".other"
+						if okk2 && k1 == k2 {
+							sel = timeSel(st.Rhs[0], now)
+						}
+						term = fmt.Sprintf("(%d, %s)", k1, sel)
+					}
+				}
+			}
+			if term != "" {
+				fl = append(fl, term)
+				frame = append(frame, "fill")
+				continue
+			}
+		case *ast.ReturnStmt:
+			if len(x.Results) == 2 && isIdent(x.Results[0], tm) && isIdent(x.Results[1], "nil") {
+				frame = append(frame, "return-millis")
+				continue
+			}
+		}
+		frame = append(frame, "other")
+	}
+	fills = "[" + strings.Join(fl, ", ") + "]"
+	return
+}
+
 func main() {
 	repo := flag.String("repo", "/repo", "repository root")
 	outp := flag.String("out", "", "output Lean file")
@@ -1179,6 +1575,37 @@ func main() {
 	fmt.Fprintf(&b, "def fmt_open : List Nat := %s\n", fmtOf("open"))
 	fmt.Fprintf(&b, "def fmt_hhmmss : List Nat := %s\n", fmtOf("hhmmss"))
 	fmt.Fprintf(&b, "def fmt_hhmm : List Nat := %s\n", fmtOf("hhmm"))
+
+	// the rune loops of DateFormat.format / Parse, statement by statement (semantics: Golib.Cal.LoopIR)
+	{
+		frame, over, body := formatLoop(funcs["format"])
+		fmt.Fprintf(&b, "def formatFrame : List String := %s\n", strList(frame))
+		fmt.Fprintf(&b, "def formatRangeOver : String := %s\n", leanStr(over))
+		fmt.Fprintf(&b, "def formatBody : List Cal.FmtStmt := %s\n", body)
+		pframe, pover, pbody, fills := parseLoop(funcs["Parse"])
+		fmt.Fprintf(&b, "def parseFrame : List String := %s\n", strList(pframe))
+		fmt.Fprintf(&b, "def parseRangeOver : String := %s\n", leanStr(pover))
+		fmt.Fprintf(&b, "def parseBody : List Cal.ParseStmt := %s\n", pbody)
+		fmt.Fprintf(&b, "def parseFills : List (Nat × Cal.TimeSel) := %s\n", fills)
+		// the exported entries of format: Format() = this.format(time.Now()), FormatTime(t) = this.format(t)
+		var ws []string
+		for _, name := range []string{"Format", "FormatTime"} {
+			what := "other"
+			if fn := funcs[name]; fn != nil && fn.Body != nil && len(fn.Body.List) == 1 {
+				if ret, ok := fn.Body.List[0].(*ast.ReturnStmt); ok && len(ret.Results) == 1 {
+					if r, m, args, ok := methodCall(ret.Results[0]); ok && r == recvName(fn) && m == "format" && len(args) == 1 {
+						if isIdent(args[0], paramName(fn, 0)) {
+							what = "recv.format(#0)"
+						} else if r2, m2, a2, ok := methodCall(args[0]); ok && r2 == "time" && m2 == "Now" && len(a2) == 0 {
+							what = "recv.format(time.Now())"
+						}
+					}
+				}
+			}
+			ws = append(ws, fmt.Sprintf("(%s, %s)", leanStr(name), leanStr(what)))
+		}
+		fmt.Fprintf(&b, "def formatEntries : List (String × String) := [%s]\n", strings.Join(ws, ", "))
+	}
 
 	statelessness(&b, fset, dir)
 
